@@ -392,9 +392,11 @@ class JnpHistogram2dPlugin(PrimitiveLeafPlugin):
         y_edges_dtype: np.dtype[Any] = np.dtype(
             getattr(y_edges_var.aval, "dtype", y_edges_out_dtype)
         )
-        compare_dtype: np.dtype[Any] = np.promote_types(
-            np.promote_types(x_dtype, y_dtype),
-            np.promote_types(x_edges_out_dtype, y_edges_out_dtype),
+        compare_dtype: np.dtype[Any] = np.dtype(
+            jnp.promote_types(
+                jnp.promote_types(x_dtype, y_dtype),
+                jnp.promote_types(x_edges_out_dtype, y_edges_out_dtype),
+            )
         )
 
         x_val = ctx.get_value_for_var(x_var, name_hint=ctx.fresh_name("hist2d_x"))
